@@ -42,11 +42,16 @@ P = Prop("C08", "exploration",
 _PKI = {}
 
 
-def _pki(proto, n_inter, role):
-    k = (proto, n_inter, role)
+def _pki(proto, n_inter, role, eku=False):
+    """eku: the end-entity certificates carry the ExtKeyUsage that fits their role (serverAuth / clientAuth) - as valid as none at all"""
+    k = (proto, n_inter, role, eku)
     if k not in _PKI:
-        ch = pki.Chain("c08-%s-%d-%s" % k, n_inter=n_inter, tlcp=(proto == "tlcp" and role == "server"), role=role)
-        files = ch.write(os.path.join(B.BUILD, "tmp", "c08_%d" % os.getpid(), "%s_%d_%s" % k))
+        tw = None
+        if eku:
+            purpose = ["serverAuth"] if role == "server" else ["clientAuth"]
+            tw = {"leaf": {"eku": purpose}, "enc": {"eku": purpose}}
+        ch = pki.Chain("c08-%s-%d-%s%s" % (proto, n_inter, role, "-eku" if eku else ""), n_inter=n_inter, tlcp=(proto == "tlcp" and role == "server"), role=role, tweaks=tw)
+        files = ch.write(os.path.join(B.BUILD, "tmp", "c08_%d" % os.getpid(), "%s_%d_%s_%d" % (proto, n_inter, role, int(eku))))
         _PKI[k] = (ch, files)
     return _PKI[k]
 
@@ -60,7 +65,7 @@ phase = st.fixed_dictionaries({"dir": st.sampled_from(["c2s", "s2c", "both", "bo
 case_s = st.fixed_dictionaries({
     "proto": st.sampled_from(net.PROTOS), "mutual": st.booleans(), "depth": st.integers(1, 3), "cdepth": st.integers(1, 2),
     # without client authentication the client may still be configured with a certificate the server never asks for
-    "offer": st.booleans(),
+    "offer": st.booleans(), "eku": st.booleans(),
     "phases": st.lists(phase, min_size=1, max_size=4),
     "frag": st.lists(st.one_of(st.sampled_from([1, 5, 100, 1400, 65536]), st.integers(1, 20000)), min_size=0, max_size=3),
     "closer": st.sampled_from(["client", "server"]), "seed": st.integers(0, 1 << 30),
@@ -82,9 +87,10 @@ def session(case, ctx):
     proto, mutual = case["proto"], case["mutual"]
     sh = shim()
     sh.freeze_time(pki.T0)
-    ch, files = _pki(proto, case["depth"] - 1, "server")
+    eku = bool(case.get("eku"))
+    ch, files = _pki(proto, case["depth"] - 1, "server", eku)
     offer = bool(case.get("offer")) and not mutual
-    cfiles = _pki(proto, case["cdepth"] - 1, "client")[1] if (mutual or offer) else None
+    cfiles = _pki(proto, case["cdepth"] - 1, "client", eku)[1] if (mutual or offer) else None
     frag_list = case["frag"]
     total_bytes = sum(p["n"] + (p["n2"] if p["dir"] == "both" else 0) for p in case["phases"])
     # byte-sized fragments are only affordable for small transfers
@@ -101,7 +107,7 @@ def session(case, ctx):
     cs, ss = _aimed_scripts(proto, case["seed"] % 64) if aim else (b"", b"")
     s = net.Session(ctx.variant, proto, files, client_files=cfiles, mutual=mutual, frag=frag, seed=case["seed"], client_script=cs, server_script=ss,
                     client_offers=offer)
-    classes = [proto, "mutual" if mutual else "server-auth+unused-client-cert" if offer else "server-auth", "depth%d" % case["depth"], "frag" if frag_list else "nofrag", "aimed-zero-lead" if aim else "unaimed"]
+    classes = [proto, "mutual" if mutual else "server-auth+unused-client-cert" if offer else "server-auth", "depth%d" % case["depth"], "eku" if eku else "no-eku", "frag" if frag_list else "nofrag", "aimed-zero-lead" if aim else "unaimed"]
     try:
         rc, rs = s.start()
         ctx.check(rc[1] == "ok" and rs[1] == "ok", "endpoint set-up failed: client %s server %s" % (rc, rs), "setup")
@@ -276,7 +282,7 @@ def long_connection(case, ctx):
         s.finish()
 
 
-hs_case = st.fixed_dictionaries({"proto": st.sampled_from(net.PROTOS), "mutual": st.booleans(), "offer": st.booleans(), "seed": st.integers(0, 1 << 40)})
+hs_case = st.fixed_dictionaries({"proto": st.sampled_from(net.PROTOS), "mutual": st.booleans(), "offer": st.booleans(), "eku": st.booleans(), "seed": st.integers(0, 1 << 40)})
 
 
 @P.sub("handshakes", hs_case, quick=2400, thorough=60000, chunk=60)
@@ -284,11 +290,12 @@ def handshakes(case, ctx):
     """many handshakes on different entropy streams (no data): both complete and agree on the keys, so rare value classes of the key exchange are met"""
     proto, mutual = case["proto"], case["mutual"]
     shim().freeze_time(pki.T0)
-    ch, files = _pki(proto, 1, "server")
+    eku = bool(case.get("eku"))
+    ch, files = _pki(proto, 1, "server", eku)
     offer = bool(case.get("offer")) and not mutual
-    cfiles = _pki(proto, 0, "client")[1] if (mutual or offer) else None
+    cfiles = _pki(proto, 0, "client", eku)[1] if (mutual or offer) else None
     s = net.Session(ctx.variant, proto, files, client_files=cfiles, mutual=mutual, seed=case["seed"], client_offers=offer)
-    mode = "mutual" if mutual else "server-auth+unused-client-cert" if offer else "server-auth"
+    mode = ("mutual" if mutual else "server-auth+unused-client-cert" if offer else "server-auth") + ("+eku" if eku else "")
     try:
         rc, rs = s.start()
         hc, hs = s.handshake()
